@@ -96,6 +96,30 @@ func init() {
 		Gen: func(r *rand.Rand, tier string, relax Relax) *Case {
 			c := &Case{Cfg: GenConfig(r, 0.6), P: map[string]int64{}, S: map[string]string{}}
 			ops, u := GenHistory(r, GenOpts{MaxOps: 10, Handles: r.Float64() < 0.3, RS: c.Cfg.RecordSize, ValidBias: 0.85})
+			if r.Float64() < 0.35 {
+				// name-reuse templates: the records of one name describe DIFFERENT entries over time
+				// (empty placeholder renamed away and the name reused with content, and the reverse;
+				// a renamed directory whose name is created again; delete then recreate then chmod)
+				n, m := "/zz"+u.Comps[0], "/zy"+u.Comps[len(u.Comps)-1]
+				d1 := &Data{Len: 8 + r.IntN(900), Kind: "text", Tag: 0x7071}
+				d2 := &Data{Len: 1 + r.IntN(900), Kind: "rand", Tag: 0x7072}
+				var t []Op
+				switch r.IntN(4) {
+				case 0:
+					t = []Op{{K: "create", P: n, H: 61}, {K: "h.close", H: 61}, {K: "rename", P: n, Q: m}, {K: "writefile", P: n, D: d1}, {K: "chmod", P: n, M: 0o644}}
+				case 1:
+					t = []Op{{K: "writefile", P: n, D: d1}, {K: "rename", P: n, Q: m}, {K: "create", P: n, H: 61}, {K: "h.close", H: 61}}
+				case 2:
+					t = []Op{{K: "mkdir", P: n, M: 0o755}, {K: "writefile", P: n + "/x", D: d1}, {K: "rename", P: n, Q: m}, {K: "mkdir", P: n, M: 0o700}, {K: "writefile", P: n + "/x", D: d2}}
+				case 3:
+					t = []Op{{K: "writefile", P: n, D: d1}, {K: "remove", P: n}, {K: "writefile", P: n, D: d2}, {K: "chmod", P: n, M: 0o600}, {K: "rename", P: n, Q: m}, {K: "create", P: n, H: 61}, {K: "h.close", H: 61}}
+				}
+				at := 0
+				if len(ops) > 0 {
+					at = r.IntN(len(ops) + 1)
+				}
+				ops = append(append(append([]Op{}, ops[:at]...), t...), ops[at:]...)
+			}
 			c.Ops, c.S["style"] = ops, u.Style
 			return c
 		},
@@ -235,6 +259,13 @@ func evalC06(t *testing.T, c *Case, st *Stats, relax Relax) *Violation {
 				return mk("lost-or-altered-beyond-torn-record", diff)
 			}
 			if tornName != "" {
+				// the torn record may be reflected in its entry's metadata; it never takes the entry
+				// (its last complete version) away
+				if r, ok := ref.t[tornName]; ok {
+					if _, still := got[tornName]; !still {
+						return mk("torn-entry-vanished", fmt.Sprintf("%q existed after the last complete record (%+v) and is gone after the rebuild of the torn tape", tornName, r))
+					}
+				}
 				if g, ok := got[tornName]; ok && g.Kind == "file" && g.Err == "" {
 					if r, ok := ref.t[tornName]; !ok || r.Sum != g.Sum {
 						return mk("torn-entry-returns-wrong-data", fmt.Sprintf("%q reads %s without error (before the torn record it was %+v)", tornName, g.Sum, ref.t[tornName]))
